@@ -8,6 +8,7 @@ import time
 from . import core
 from .core import log
 from .props import PROPS, Stream
+from . import surface
 
 
 def cmd_setup():
@@ -192,6 +193,17 @@ def cmd_check(pid, tier):
                     "mode": st.mode, "hook": st.hook, "case": small, "impl": a, "model": b,
                     "count_in_stream": len(sr.disagree), "stream": st.name})
                 violations.append(("disagree", path, False))
+
+    # 3b. the quantifier domains (diff variants, mutators, adapters, methods) the model was written for
+    surf_ok, surf_rep = surface.check(pid)
+    if not surf_ok:
+        log("surface drift: " + json.dumps(surf_rep)[:600])
+        path = core.write_replay(pid, "surface", {
+            "property": pid,
+            "what": "the source declares items the model and the generators do not know (or no longer declares "
+                    "modelled ones): the property is no longer shown to hold for every item of its domain",
+            "drift": surf_rep, "snapshot": "surface/expected.json"})
+        violations.append(("surface", path, False))
 
     if not gate["ok"]:
         path = core.write_replay(pid, "proof", {"property": pid, "what": "proof gate broken",
